@@ -14,6 +14,8 @@ import BindgenModel.Driver.C04
 import BindgenModel.Driver.C01
 import BindgenModel.Driver.C02
 import BindgenModel.Driver.C06
+import BindgenModel.Driver.C09
+import BindgenModel.Driver.C10
 /-! `bgmodel`: one request per input line, one answer per output line (lines between `ir-begin`
 and `ir-end` load an IR dump and produce no output). -/
 open BindgenModel
@@ -46,6 +48,8 @@ def dispatch (st : St) (line : String) : St × Option String :=
   | "c01" :: rest => (st, some (Driver.C01.handle rest))
   | "lay" :: rest => (st, some (Driver.C02.handle rest))
   | "lt" :: rest => (st, some (Driver.C06.handle rest))
+  | "reach" :: rest => (st, some (Driver.C09.handle rest))
+  | "blk" :: rest => (st, some (Driver.C10.handle rest))
   | _ => (st, some "bad-op")
 
 partial def loop (h : IO.FS.Stream) (out : IO.FS.Stream) (st : St) : IO Unit := do
